@@ -4,7 +4,8 @@
    by OUTPUT id), reconcileTearingDownInput, cleanupOutputs and the final finalizer-release loop.  One step = one
    call of the controller.Runtime API executed atomically by Access.a_apply; list items that need no call are passed
    over silently (adv_in / adv_out).  The release loop ranges over a Go map: its order is a choice of the schedule
-   (the input id carried by the step).  The finalizer-removal hook returns nil. *)
+   (the input id carried by the step).  The finalizer-removal hook is a parameter (per input: nil, skip-tagged error,
+   other error). *)
 From Verif Require Export Store Helpers DepDB Access GenCtl Transform.
 Open Scope N_scope.
 
@@ -12,6 +13,9 @@ Section TL.
   Variables (ns tin tout cname : atom).
   Variable tf : atom -> atom.
   Variable mapf : atom -> option atom.
+  (* the user's finalizer-removal hook, per input id: None = returns nil, Some true = an error tagged SkipReconcile,
+     Some false = any other error *)
+  Variable hook : atom -> option bool.
 
   Definition rems := list (atom * atom).       (* output id |-> input id whose finalizer may go once the output is gone *)
   Definition rem_del (o : atom) (m : rems) : rems := filter (fun p => negb (N.eqb (fst p) o)) m.
@@ -42,8 +46,14 @@ Section TL.
         | None => adv_in rest a
         | Some o =>
             if r_phase inp then
-              (* reconcileTearingDownInput: without the finalizer nothing; else release pending on output o *)
-              adv_in rest (if has_fin cname inp then mkL (l_touched a) (rem_set o (r_id inp) (l_rems a)) (l_err a) else a)
+              (* reconcileTearingDownInput: without the finalizer nothing; hook failed: keep the output (and report the
+                 error unless it is tagged skip); else release pending on output o *)
+              adv_in rest (if has_fin cname inp then
+                             match hook (r_id inp) with
+                             | None => mkL (l_touched a) (rem_set o (r_id inp) (l_rems a)) (l_err a)
+                             | Some skip => mkL (o :: l_touched a) (l_rems a) (if skip then l_err a else true)
+                             end
+                           else a)
             else
               let a' := mkL (o :: l_touched a) (l_rems a) (l_err a) in
               if has_fin cname inp then LModify inp o rest a' else LAddFin inp o rest a'
